@@ -9,6 +9,7 @@
 #include <xalanc/PlatformSupport/XalanBitmap.hpp>
 #include <xalanc/PlatformSupport/XalanDOMStringPool.hpp>
 #include <xalanc/PlatformSupport/DOMStringHelper.hpp>
+#include <xalanc/PlatformSupport/XalanDOMStringCache.hpp>
 #include <map>
 #include <xalanc/XalanTransformer/XalanTransformer.hpp>
 #include <xercesc/util/PlatformUtils.hpp>
@@ -124,6 +125,15 @@ static std::string show(PoolPair& p, const std::string& pre, bool& bad)
     return o.str();
 }
 
+struct CachePair
+{
+    std::unique_ptr<XalanDOMStringCache> x;
+    XalanDOMString* slot[8];
+    size_t tag;
+    explicit CachePair(size_t maxSize = XalanDOMStringCache::eDefaultMaximumSize) :
+        x(new XalanDOMStringCache(g_mm, XalanSize_t(maxSize))), tag(0) { for (int i = 0; i < 8; ++i) slot[i] = 0; }
+};
+
 static bool units(const std::string& t, std::vector<XalanDOMChar>& out)
 {
     out.clear();
@@ -158,6 +168,7 @@ int main()
         for (int i = 0; i < 2; ++i) bs.push_back(new BmpPair);
         std::vector<PoolPair*> ps;
         for (int i = 0; i < 2; ++i) ps.push_back(new PoolPair);
+        std::unique_ptr<CachePair> sc(new CachePair);
         bool poisoned = false;
         long leaked = 0;
         std::string line;
@@ -172,15 +183,50 @@ int main()
                 for (auto*& p : ss) { delete p; }
                 for (auto*& p : bs) { delete p; }
                 for (auto*& p : ps) { delete p; }
+                sc.reset();
                 leaked += g_mm.live; g_mm.live = 0;
                 for (auto*& p : ss) { p = new StrPair; }
                 for (auto*& p : bs) { p = new BmpPair; }
                 for (auto*& p : ps) { p = new PoolPair; }
+                sc.reset(new CachePair);
                 poisoned = false;
                 std::cout << "ok\n";
                 continue;
             }
             if (poisoned) { std::cout << "skip\n"; continue; }
+            if (t.size() >= 2 && t[0] == "sc")
+            {
+                // XalanDOMStringCache: every string is tagged by the buffer capacity its holder reserves, so that the
+                // string handed out again by get() can be recognised (release()/reset() erase but keep the buffer)
+                CachePair& c = *sc;
+                size_t a0 = 0;
+                bool cbad = false;
+                std::ostringstream o;
+                if (t[1] == "new" && t.size() == 3 && num(t[2], a0)) { sc.reset(); sc.reset(new CachePair(a0)); o << "ok"; }
+                else if (t[1] == "get" && t.size() == 3 && num(t[2], a0) && a0 < 8)
+                {
+                    XalanDOMString& str = c.x->get();
+                    for (int k = 0; k < 8; ++k) if (c.slot[k] == &str) cbad = true;      // handed out twice
+                    if (str.length() != 0) cbad = true;                                 // not reset
+                    o << "r=" << str.capacity() << " n=" << str.length();
+                    c.slot[a0] = &str;
+                    str.reserve(16 + c.tag++);
+                    str.append(2, XalanDOMChar(120));
+                }
+                else if (t[1] == "release" && t.size() == 3 && num(t[2], a0) && a0 < 8 && c.slot[a0] != 0)
+                {
+                    const bool r = c.x->release(*c.slot[a0]);
+                    c.slot[a0] = 0;
+                    o << "r=" << (r ? 1 : 0);
+                    if (!r) cbad = true;
+                }
+                else if (t[1] == "reset") { c.x->reset(); for (int k = 0; k < 8; ++k) c.slot[k] = 0; o << "ok"; }
+                else if (t[1] == "clear") { c.x->clear(); for (int k = 0; k < 8; ++k) c.slot[k] = 0; o << "ok"; }
+                else { std::cout << "bad\n"; continue; }
+                if (cbad) { o << " !std"; poisoned = true; }
+                std::cout << o.str() << "\n";
+                continue;
+            }
             if (t.size() >= 4 && t[0] == "cmp")
             {
                 // stateless: the comparison family on freshly built strings
@@ -252,12 +298,21 @@ int main()
                 std::string pre;
                 if (t[1] == "new" && t.size() == 4 && num(t[3], x) && x >= 1) { delete ps[pi]; ps[pi] = new PoolPair(x); }
                 else if (t[1] == "clear") { q.x->clear(); q.ids.clear(); q.s.clear(); }
-                else if (t[1] == "get" && t.size() == 4 && units(t[3], u))
+                else if ((t[1] == "get" || t[1] == "gets") && t.size() == 4 && units(t[3], u))
                 {
+                    // keys are length-carrying unit sequences: embedded and leading U+0000 belong to the key
                     const XalanDOMChar nul0 = 0;
-                    const XalanDOMString& r = q.x->get(u.empty() ? &nul0 : &u[0], u.size());
+                    const XalanDOMString* rp = 0;
+                    if (t[1] == "get") rp = &q.x->get(u.empty() ? &nul0 : &u[0], u.size());
+                    else
+                    {
+                        XalanDOMString key(g_mm);
+                        if (!u.empty()) key.append(&u[0], u.size());
+                        rp = &q.x->get(key);
+                    }
+                    const XalanDOMString& r = *rp;
                     std::u16string want(u.begin(), u.end());
-                    // the property: the returned string has the requested characters, and equal requests return the same object
+                    // the property: the returned string has the requested units, and equal requests return the same object
                     if (r.length() != want.size()) pbad = true;
                     for (size_t k = 0; !pbad && k < want.size(); ++k) if (r[k] != want[k]) pbad = true;
                     if (u.empty()) pre = "r=E ";
@@ -312,6 +367,14 @@ int main()
             {
                 p.x->append(u.empty() ? &nul : &u[0], u.size());
                 p.s.append(u.begin(), u.end());
+            }
+            else if (op == "ctor" && t.size() == 4 && units(t[3], u))
+            {
+                const size_t cnt = u.size();
+                u.push_back(0);
+                XalanDOMString tmp(&u[0], g_mm, cnt);       // counted constructor
+                p.x->swap(tmp);
+                p.s.assign(reinterpret_cast<const char16_t*>(&u[0]), cnt);
             }
             else if (op == "appz" && t.size() == 4 && units(t[3], u))
             {
@@ -403,6 +466,7 @@ int main()
         for (auto* p : ss) delete p;
         for (auto* p : bs) delete p;
         for (auto* p : ps) delete p;
+        sc.reset();
         leaked += g_mm.live;
         std::cout << "live " << leaked << "\n";
     }
